@@ -100,27 +100,42 @@ PLACES = [("f.ucg", ".", False)] * 4 + [
     ("my.conf.ucg", ".", False), ("sp ace.ucg", ".", False), (".hidden.ucg", ".", False), ("a-b_c.v2.ucg", ".", False),
     ("sub/inner.ucg", ".", False), ("sub/inner.ucg", "sub", False), ("sub/inner.ucg", "other", False), ("sub/deep/x.y.ucg", "sub", False),
     ("f.ucg", ".", True), ("sub/inner.ucg", "other", True), ("\u00fcn\u00ef.ucg", ".", False), ("f.ucg", "other", False),
+    # the file named on the command line is a symbolic link to the source, under another name and/or in another directory
+    # (one template, one link per deployment): the artifact is named like the file that was built, the link
+    ("templates/service.ucg", ".", False, "prod.ucg"), ("f.ucg", ".", False, "g.ucg"), ("f.ucg", ".", False, "links/alias.ucg"),
+    ("sub/inner.ucg", "other", True, "other/l.ucg"), ("sub/inner.ucg", "sub", False, "top.ucg"), ("templates/service.ucg", "other", False, "deploy/staging.ucg"),
 ]
 
 
 class Place:
     """where the source file lives (relative to the project root), the cwd of the build, and how the file is named on argv"""
 
-    def __init__(self, src="f.ucg", cwd=".", absolute=False):
-        self.src, self.cwd, self.absolute = src, cwd, absolute
+    def __init__(self, src="f.ucg", cwd=".", absolute=False, link=None):
+        self.src, self.cwd, self.absolute, self.link = src, cwd, absolute, link
+
+    def named(self):
+        """the file named on the command line: the source, or the symbolic link to it"""
+        return self.link or self.src
 
     def art(self, ext):
-        assert self.src.endswith(".ucg")
-        return self.src[:-4] + "." + ext
+        assert self.named().endswith(".ucg")
+        return self.named()[:-4] + "." + ext
+
+    def make_link(self, tp):
+        if self.link and not os.path.lexists(tp.path(self.link)):
+            os.makedirs(os.path.dirname(tp.path(self.link)) or tp.root, exist_ok=True)
+            os.makedirs(os.path.dirname(tp.path(self.src)) or tp.root, exist_ok=True)
+            os.symlink(os.path.relpath(tp.path(self.src), os.path.dirname(tp.path(self.link)) or tp.root), tp.path(self.link))
 
     def as_json(self):
-        return [self.src, self.cwd, self.absolute]
+        return [self.src, self.cwd, self.absolute] + ([self.link] if self.link else [])
 
 
 def build(tp, pl):
     cwd = os.path.normpath(os.path.join(tp.root, pl.cwd))
     os.makedirs(cwd, exist_ok=True)
-    arg = tp.path(pl.src) if pl.absolute else os.path.relpath(tp.path(pl.src), cwd)
+    pl.make_link(tp)
+    arg = tp.path(pl.named()) if pl.absolute else os.path.relpath(tp.path(pl.named()), cwd)
     return core.run_cli(["build", arg], cwd)
 
 
@@ -239,9 +254,10 @@ def task(args):
             if r.random() < 0.06:
                 scenario = "big-output"
             pl = Place(*r.choice(PLACES))
+            pl.make_link(tp)    # before any snapshot: the link itself is not something the build made
             os.makedirs(tp.path("other"), exist_ok=True)
             witness = {"format": fmt, "good": good_t, "scenario": scenario, "place": pl.as_json()}
-            res.count("place:%s@%s%s" % (pl.src, pl.cwd, ":abs" if pl.absolute else ""))
+            res.count("place:%s@%s%s%s" % (pl.src, pl.cwd, ":abs" if pl.absolute else "", (":via-symlink-" + pl.link) if pl.link else ""))
             if scenario in ("good-bad-good", "bad-first") and not bads:
                 scenario = "constraint"
                 witness["scenario"] = scenario
@@ -380,11 +396,13 @@ def check_witness(w):
         if w.get("program"):
             with core.TempProject("c14r") as tp:
                 os.makedirs(tp.path("other"), exist_ok=True)
+                pl.make_link(tp)
                 tp.write(os.path.join(os.path.dirname(pl.src), "c14lib.ucg"), "let w = 1;\n")
                 judge_two(res, tp, pl, w["program"], w)
             return res
         with core.TempProject("c14r") as tp:
             os.makedirs(tp.path("other"), exist_ok=True)
+            pl.make_link(tp)
             tp.write(pl.src, "let v = %s;\nout %s v;\n" % (w["good"], fmt))
             ok = judge_good(res, probe, tp, pl, fmt, ext, w["good"], ["good"], w)
             if ok and w.get("good2"):
